@@ -22,7 +22,7 @@
 
 namespace std {
 
-    std::ostream& operator <<(std::ostream &out, const std::pair<unsigned long int, bool> &v) {
+    inline std::ostream& operator <<(std::ostream &out, const std::pair<unsigned long int, bool> &v) {
         out << v.first << (v.second ? "+" : "-");
         return out;
     }
